@@ -89,6 +89,14 @@ def check_bank(mtjs, order=None):
             mts = [extract(t) for t in live]
             for t in live:
                 grammar.extract(t, g, lex)
+        elif order == 'collapse':
+            # trees restructured in place by another transformation before extraction
+            live = [transform.collapse_unary_chains(build(mt)) for mt in mts]
+            if any(not t.children for t in live):
+                return out, False
+            mts = [extract(t) for t in live]
+            for t in live:
+                grammar.extract(t, g, lex)
         else:
             for mt in mts:
                 ret = grammar.extract(build(mt, child_order=order), g, lex)
@@ -148,7 +156,7 @@ def run_chunk(chunk):
         if chunk['kind'] == 'single':
             for sh, k in sweep.iter_shapes(chunk):
                 for mt in label_variants(sh, chunk['dev']):
-                    for order in (None, 'rev', 'export+raise'):
+                    for order in (None, 'rev', 'export+raise') + (('collapse',) if k else ()):
                         vs, nt = check_bank([mt.to_json()], order)
                         take(vs, nt, (mt.key(), order))
                 res.sample({'treebank': [model.mt_str(mt.root, mt.toks)]})
